@@ -412,6 +412,7 @@ def run(prog, chk):
     backlinks_cleared_before_removal(prog, chk, "C14.T10")
     event_translation_tables(prog, chk, "C14.T11")
     poll_failure_not_on_eintr(prog, chk, "C14.T12")
+    timer_key_is_execution_time(prog, chk, "C14.T13")
 
 
 def backlinks_cleared_before_removal(prog, chk, rid):
@@ -568,3 +569,57 @@ def poll_failure_not_on_eintr(prog, chk, rid):
                         "`return false` is reached without a test that excludes errno == EINTR: a signal delivered to the loop thread makes "
                         "the wait return -1, poll() reports failure and Server::run() returns although nobody called interrupt() - timers and "
                         "sockets stop being served", evals=len(atoms) + 1)
+
+
+def timer_key_is_execution_time(prog, chk, rid):
+    """remove(TimerImpl&) looks its queue entry up under `timer.executionTime`: the key a timer is queued under has to be that very
+    value - the field itself, or one local that is stored into the field as well.  Two readings of the clock are two values."""
+    chk.rule(rid, "KEY: every `_queuedTimers.insert(key, timer)` with a non-null timer uses the timer's executionTime as key: the field itself "
+                  "or a local that a dominating store put into that field (never a second evaluation of an expression that contains a call)", floor=2)
+    n = 0
+    for f in [g for g in prog.functions.values() if g.gname.startswith(P) and g.blocks and g.file.endswith("Server.cpp")]:
+        defs = q.local_defs(f)
+        for c in q.calls(f):
+            o = q.call_object(f, c)
+            if not (f.nodes[c].get("callee") or "").endswith("::insert") or o is None or q.no_casts(f.r(o)) != "this->_queuedTimers":
+                continue
+            args = q.call_args(f, c)
+            if len(args) != 2 or q.is_zero(f, args[1]):
+                continue        # the default timeout entry carries no timer
+            n += 1
+            tv = q.no_casts(q.xr(f, args[1], defs)).lstrip("&").strip("()")
+            key = q.no_casts(f.r(args[0])).strip("()")
+            want = set(x % tv for x in ("%s.executionTime", "%s->executionTime", "(*%s).executionTime"))
+            tv_raw = q.no_casts(f.r(args[1])).lstrip("&").strip("()")
+            want |= set(x % tv_raw for x in ("%s.executionTime", "%s->executionTime"))
+            ok = key in want or q.no_casts(q.xr(f, args[0], defs)).strip("()") in want
+            if not ok:
+                kn = f.nodes[f.strip(args[0])]
+                if kn["k"] == "DeclRefExpr" and kn["ref"].get("dk") in ("local", "parm"):
+                    # a local: some dominating store puts this same local into the timer's field (or it was read from the field)
+                    for s_ in q.stores(f):
+                        if q.no_casts(f.r(s_.lhs)).strip("()") in want and s_.rhs is not None and q.no_casts(f.r(s_.rhs)).strip("()") == key and \
+                           f.dominates_pos(f.node_pos(s_.node), f.node_pos(c)):
+                            ok = True
+                    ini = q.single_def(f, kn["ref"]["id"], defs)
+                    if ini is not None and q.no_casts(f.r(ini)).strip("()") in want:
+                        ok = True
+                    # ... or the same local was handed to the call that created the timer (its constructor stores it as the due time)
+                    tn_ = f.nodes[f.strip(args[1])]
+                    while tn_["k"] in ("UnaryOperator", "CStyleCastExpr", "ImplicitCastExpr", "ParenExpr") and tn_["c"]:
+                        nx_ = f.strip(tn_["c"][0])
+                        tn_ = f.nodes[nx_] if nx_ != tn_["i"] else f.nodes[tn_["c"][0]]
+                    if tn_["k"] == "DeclRefExpr" and tn_["ref"].get("dk") == "local" and ini is not None:
+                        mk = q.single_def(f, tn_["ref"]["id"], defs)
+                        if mk is not None and any(f.nodes[x]["k"] == "DeclRefExpr" and f.nodes[x]["ref"].get("id") == kn["ref"]["id"] for x in f.desc(mk)) and \
+                           any(f.nodes[x]["k"] in ("CallExpr", "CXXMemberCallExpr") for x in [f.strip(mk)] + list(f.desc(mk))):
+                            ok = True
+            if ok:
+                chk.ok(rid, f, "queued under the timer's executionTime", f.where(c), key[:40], evals=1)
+            else:
+                chk.bad(rid, f, "timer-queued-under-other-key", f.where(c),
+                        "`%s` queues the timer under `%s`, which is not (provably) the value of its executionTime: remove() searches the queue "
+                        "under executionTime, misses the entry, the timer's slot is freed and the stale queue entry keeps calling "
+                        "onActivated() on it" % (q.no_casts(f.r(c))[:60], key[:40]), evals=1)
+    if n < 2:
+        raise AnalysisBroken("insertions of timers into _queuedTimers: %d found, 2 expected" % n)
